@@ -146,6 +146,27 @@ def core_check(cfg):
         collect(prop, res2, known_seen, violations, "random")
         log(f"[{prop}] random histories: {len(rfiles)} x {t['random_len']} requests, {nrnd} records, {time.time()-t3:.0f}s")
 
+        # 3b. the same generator against a core with extended monitoring on (the server's default setting):
+        # the bookkeeping requests the server issues itself run through the same stores, subscriber trees and
+        # notifications, and must not disturb what the property says about client requests
+        t3b = time.time()
+        xfiles = []
+        for i in range(t.get("extmon_runs", 2)):
+            rnd = random.Random(seed * 104729 + i)
+            hdr, reqs = cfg["gen"](rnd, t["random_len"])
+            p = os.path.join(d, f"req_xmon{i}.ndjson")
+            with open(p, "w") as f:
+                f.write(json.dumps(dict(hdr, extmon=True)) + "\n")
+                for r in reqs:
+                    f.write(json.dumps(r) + "\n")
+            xfiles.append(p)
+        nx = 0
+        if xfiles:
+            nx, res3 = run_and_validate(d, "xmon", xfiles, "Trace_Core", known, t.get("val_timeout", 1200))
+            collect(prop, res3, known_seen, violations, "extmon-random")
+            nrnd += nx
+            log(f"[{prop}] random histories with extended monitoring on: {len(xfiles)} x {t['random_len']} requests, {nx} records, {time.time()-t3b:.0f}s")
+
         # 4. further configurations of the same property (other server settings): same three steps
         extras = []
         for ex in cfg.get("extras", []):
@@ -198,7 +219,7 @@ def core_check(cfg):
 CORE_ASSUME = [
     "the core is driven directly (worterbuch::verif::Worterbuch), one request at a time, as the single core task does (lib.rs:217-363)",
     "values are opaque tokens compared for equality; key segments contain no '/', '?' or '#' characters inside imports",
-    "extended monitoring off; persistence backend Noop",
+    "persistence backend Noop; extended monitoring off in the model-checked configurations and the edge replay, on in part of the random histories",
 ]
 
 CHECKS = {}
@@ -218,7 +239,7 @@ EXTRAS = {"C08": [{"name": "extmon", "mc": "MC_C08x", "mc_cfg": "MC_C08x.cfg", "
 
 def reg(prop, mc, gen, quick, thorough):
     base_q = {"mc_cfg": f"{mc}.cfg", "edge_cfg": f"{mc}.cfg", "random_runs": 4, "random_len": 1200, "chunks": 8}
-    base_t = {"mc_cfg": f"{mc}_thorough.cfg", "edge_cfg": f"{mc}.cfg", "random_runs": 32, "random_len": 5000, "chunks": 8,
+    base_t = {"mc_cfg": f"{mc}_thorough.cfg", "edge_cfg": f"{mc}.cfg", "random_runs": 32, "random_len": 5000, "chunks": 8, "extmon_runs": 8,
               "mc_timeout": 3000, "heap": "16g"}
     base_q.update(quick)
     base_t.update(thorough)
